@@ -660,7 +660,7 @@ def _bfs_expand(node):
     return out
 
 
-def bfs_case(item):
+def bfs_case(item, workers=1):
     """item = (shape, role, xs tuple, variant).  All splittings (and, for two
     streams, all interleavings) of the streams xs with state merging."""
     name, role, xs, variant = item
@@ -685,7 +685,7 @@ def bfs_case(item):
     for st in before:
         apply_step(R0, sc, st)
     root = ((pos0, R0.state(), R0.nf.freeze(R0.quic.closed)), None, [])
-    res = explore.bfs([root], _bfs_expand, workers=1, name="c14.bfs")
+    res = explore.bfs([root], _bfs_expand, workers=workers, name="c14.bfs")
     viols = []
     seen = set()
     for names, text, hist in res.violations:
@@ -723,7 +723,7 @@ def bfs_case(item):
         "item": item,
         "states": res.states,
         "transitions": res.transitions,
-        "runs": _B["runs"],
+        "runs": res.transitions,  # one fresh receiver run per transition
         "closed": res.closed,
         "max_depth": res.max_depth,
         "finals": len(res.outcomes),
@@ -1055,7 +1055,7 @@ def plan_items(ctx):
                 enc = sc["enc"]
                 tgt = [a for a in apps if a != "d"]
                 # the message streams that reference the dynamic table: all but the first
-                for a in (tgt[1:] if quick else tgt):
+                for a in (tgt if sh.name == "dyn_push" else tgt[1:]):
                     if quick and a != tgt[1]:
                         continue
                     for v in ("ctx_first", "all_after"):
@@ -1108,7 +1108,13 @@ def run(ctx):
             items = [i for i in items if len(i[3]) == 2]
         # longest first for load balance
         items.sort(key=lambda i: -sum(len(scenario(i[1], i[2])["streams"][x]["data"]) for x in i[3]) ** len(i[3]))
-        res = core.pmap(_work, items, ordered=True)
+        res = core.pmap(_work, [i for i in items if len(i[3]) == 1], ordered=True)
+        # two-stream BFS: one case at a time, frontier expanded by the pool
+        for i in items:
+            if len(i[3]) == 2:
+                st = scenario(i[1], i[2])["streams"]
+                big = len(st[i[3][0]]["data"]) * len(st[i[3][1]]["data"]) > 600
+                res.append(bfs_case(i[1:], workers=core.NCPU if big else 1))
         for nm, sel in (("split", 1), ("pair", 2)):
             rs = [r for r in res if len(r["item"][2]) == sel]
             if not rs:
@@ -1137,7 +1143,9 @@ def run(ctx):
                             "transitions": r["transitions"], "history": r["sample"]})
         # deterministic reporting order: by shape order, then item
         order = {s.name: i for i, s in enumerate(SHAPES)}
-        for r in sorted(res, key=lambda r: (order[r["item"][0]], r["item"][1], len(r["item"][2]), repr(r["item"]))):
+        vorder = {"ctx_first": 0, "enc_after": 1, "all_after": 2}
+        for r in sorted(res, key=lambda r: (order[r["item"][0]], r["item"][1], len(r["item"][2]),
+                                            vorder[r["item"][3]], repr(r["item"]))):
             for v in r["viols"]:
                 _report(ctx, r["item"][:2], v)
             if r["inter"]:
@@ -1177,11 +1185,26 @@ def run(ctx):
         "one-delivery-per-stream run and, for valid shapes, with what was submitted"
     )
     ctx.cov["exhaustive"] = not ctx.caps_hit
+    max_bytes = max(
+        len(st["data"]) for sh in shapes for role in sh.roles
+        for sid, st in scenario(sh.name, role)["streams"].items() if sid != "d")
     ctx.cov["bounds"] = {
         "shapes": len(shapes),
         "shape_role_pairs": len(items_rt),
+        "split": "every stream of every shape x contexts {ctx_first, enc_after, all_after}; every "
+                 "chunk size >= 1 at every position, FIN attached or alone; longest stream %d bytes"
+                 % max_bytes,
+        "pair": "QPACK encoder stream x each message stream that references the dynamic table "
+                "(quick: shape dyn, second message only), contexts {ctx_first, all_after}",
+        "inter": "groups (control, encoder, first message), (encoder, last two messages), "
+                 "(encoder, last message), (first two messages), (last three messages); <= 3 chunks "
+                 "per stream; cut grammar: default cut (after first frame boundary + 1, before last "
+                 "byte) for all, then one stream at a time through every cut pair/single cut/FIN "
+                 "alone at positions {1, n-1, b-1, b, b+1 for each frame boundary b} (3-stream "
+                 "groups) or at every position (2-stream groups); quick: default cuts + every 16th "
+                 "configuration starting at 1 + seed mod 16",
         "tier_note": "quick: core shapes + seed-selected sixth of the thorough-only shapes "
-                     "(message streams only) and sixteenth of the cut grammar",
+                     "(message streams only)",
     }
     ctx.assumptions += [
         "state merging: the receiver's reaction to further bytes is a function of every H3Stream "
